@@ -32,7 +32,7 @@ type c04Case struct {
 }
 
 type c04Stats struct {
-	sharedUpper, remap, unmapThenMap, inactiveOp, injectedFired bool
+	sharedUpper, remap, unmapThenMap, inactiveOp, injectedFired, refusedRegion bool
 }
 
 func (op c04Op) page() uint64 {
@@ -107,6 +107,9 @@ func c04Run(c c04Case) (fail *vlib.Failure, rs c04Stats) {
 		}
 		page := op.page()
 		flags := op.Flags | 1
+		if op.Kind == "mapRegion" && op.Size > 1<<32 && op.Size <= uint64(earlyReserveLastUsed) {
+			continue // (hand-written replays only) would have to map billions of pages
+		}
 		cr3Before := m.cr3
 		var snapTables []uintptr
 		var snap [][]byte
@@ -198,6 +201,18 @@ func c04Run(c c04Case) (fail *vlib.Failure, rs c04Stats) {
 				changed = append(changed, tp)
 			}
 		case "mapRegion", "identityMap":
+			if op.Kind == "mapRegion" && op.Size > uint64(reserveBefore) {
+				// a region that does not fit below the regions mapped so far: refused, and
+				// nothing may change - in particular not the place the next region will get
+				if err == nil {
+					return vlib.Failf("%s: a region of %#x bytes was mapped although only %#x bytes of address space are left", when, op.Size, uint64(reserveBefore)), rs
+				}
+				if earlyReserveLastUsed != reserveBefore {
+					return vlib.Failf("%s: the refused region mapping of %#x bytes moved the start of the mapped regions from %#x to %#x: the next region would be given pages that are in use", when, op.Size, uint64(reserveBefore), uint64(earlyReserveLastUsed)), rs
+				}
+				rs.refusedRegion = true
+				break
+			}
 			n := (op.Size + 4095) >> 12
 			var first uint64
 			if op.Kind == "identityMap" {
@@ -329,6 +344,10 @@ func c04GenOp(t *rapid.T, spaces int) c04Op {
 	switch kind {
 	case "mapRegion", "identityMap":
 		op.Size = rapid.SampledFrom([]uint64{1, 4095, 4096, 4097, 8192, 3 * 4096, 5*4096 - 1}).Draw(t, "size")
+		if kind == "mapRegion" && rapid.IntRange(0, 7).Draw(t, "toobig") == 0 {
+			// larger than everything that is left below the regions mapped so far
+			op.Size = rapid.SampledFrom([]uint64{1<<64 - 4096, 1<<64 - 8192, 1<<64 - 1<<30, 1<<64 - 4097, 1<<64 - 1}).Draw(t, "hugesize")
+		}
 		if kind == "identityMap" {
 			// identity mappings live in the low half (frame numbers are page numbers)
 			op.P[0] = rapid.SampledFrom([]int{0, 1, 254}).Draw(t, "idp4")
@@ -359,7 +378,7 @@ func TestVerifC04(t *testing.T) {
 		c.Ops = rapid.SliceOfN(rapid.Custom(func(t *rapid.T) c04Op { return c04GenOp(t, spaces) }), minOps, vlib.Scale(60, 300)).Draw(t, "ops")
 		fail, rs := c04Run(c)
 		var labels []string
-		for name, on := range map[string]bool{"shared-upper-table": rs.sharedUpper, "remap": rs.remap, "unmap-then-map": rs.unmapThenMap, "inactive-space-op": rs.inactiveOp, "injected-alloc-failure-fired": rs.injectedFired} {
+		for name, on := range map[string]bool{"shared-upper-table": rs.sharedUpper, "remap": rs.remap, "unmap-then-map": rs.unmapThenMap, "inactive-space-op": rs.inactiveOp, "injected-alloc-failure-fired": rs.injectedFired, "refused-region-map": rs.refusedRegion} {
 			if on {
 				labels = append(labels, name)
 			}
